@@ -359,11 +359,14 @@ func genValue(rt *rapid.T, s *spec, long bool) string {
 	case kU16:
 		return strconv.Itoa(rapid.SampledFrom([]int{0, 1, 9, 10, 255, 256, 4000, 6000, 65534, 65535}).Draw(rt, "u16") % 65536)
 	case kU32:
-		return strconv.FormatUint(uint64(rapid.SampledFrom([]uint32{0, 1, 100, 6000, 65536, 1 << 31, math.MaxUint32 - 1}).Draw(rt, "u32")), 10)
+		return strconv.FormatUint(uint64(rapid.SampledFrom([]uint32{0, 1, 100, 6000, 65536, 1 << 31, math.MaxUint32 - 1, math.MaxUint32}).Draw(rt, "u32")), 10)
 	case kEnum:
 		lo := 0
 		if s.name == "Orientation" {
 			lo = 1
+		}
+		if s.name == "MeteringMode" && rapid.IntRange(0, 5).Draw(rt, "other") == 0 {
+			return "255" // "other" (Exif 2.32)
 		}
 		return strconv.Itoa(rapid.IntRange(lo, s.max).Draw(rt, "enum"))
 	case kRating:
@@ -516,6 +519,9 @@ func genCase(o opts) func(rt *rapid.T) Case {
 				}
 				if a.kind == "Alt" {
 					arr.Langs = append(arr.Langs, rapid.SampledFrom([]string{"x-default", "en-US", "de", "ja-JP"}).Draw(rt, "lang"))
+				} else if a.name != "ISOSpeedRatings" {
+					// a language qualifier is allowed on the items of any array; it is not an item
+					arr.Langs = append(arr.Langs, rapid.SampledFrom([]string{"", "", "", "x-default", "en-US"}).Draw(rt, "qlang"))
 				}
 			}
 			r.Arrays = append(r.Arrays, arr)
